@@ -87,7 +87,7 @@ reg("C18", [
     K("C18", "match_qtype", "all (supported record code, question code in supported|ANY|MAILB) pairs (symbolic)",
       ["ResourceRecord::match_qtype", "RData::type_code"]),
     K("C18", "match_qclass", "all (class, qclass) pairs (symbolic codes)", ["ResourceRecord::match_qclass"]),
-    K("C18", "typecode_null_constructed", "all unsupported codes + 10 (symbolic) for RData::NULL / RData::Empty",
+    K("C18", "typecode_null_constructed", "all 65536 codes (symbolic) for RData::NULL(code, ..) / RData::Empty(TYPE::from(code))",
       ["RData::type_code"]),
     K("C18", "typecode_parsed", "RData::parse with empty RDATA for all 65535 codes != OPT (symbolic): type_code() == the type the code denotes",
       ["RData::parse", "RData::type_code"], weight=20, timeout_quick=700, timeout_thorough=1500),
@@ -403,12 +403,18 @@ reg("C15", [
       "records always are (4 scenarios over the symbolic name pool)", _PIPE_FUNCS, params={'part': 'ingest'}),
     M("C15", "attributes", "txt_text", "attribute maps (1-2 entries; absent / empty / non-empty values) survive TXT::try_from(map) -> attributes()",
       ["<TXT as TryFrom<HashMap<String, Option<String>>>>::try_from", "TXT::attributes"], params={'part_only': 'attr'}),
+    M("C15", "instance", "instance_rt", "end to end: InstanceInformation -> into_records -> compressed packet -> Packet::parse -> from_records on 5 (8) "
+      "member shapes (0-2 IPv4, 0-2 IPv6, 0-2 ports, 0-2 attributes with absent / empty / non-empty values); instance and service labels, "
+      "addresses, ports, TTL, keys and values symbolic; every iteration order of the three hash containers",
+      ["InstanceInformation::into_records", "InstanceInformation::from_records", "conversion_utils::{ip_addr_to_resource_record,port_to_srv_record,hashmap_to_txt}",
+       "TXT::try_from(HashMap)", "TXT::attributes", "Packet::build_bytes_vec_compressed", "Packet::parse", "Name::without"]),
     M("C15", "wire", "packet_rt", "records of the kinds an instance announces (A, SRV, TXT, PTR) cross the wire in a compressed packet unchanged "
       "(scenarios mx_srv, an_ns_ptr, opt_and_ar)", _PKT_FUNCS, params={'only': ['mx_srv', 'an_ns_ptr', 'opt_and_ar']}),
 ], [
-    "the end-to-end chain InstanceInformation -> into_records -> packet -> wire -> ingest -> from_records is decided piecewise (escape, "
-    "attribute map <-> TXT, records over the compressed wire, ingest filter); HashSet<IpAddr>/port-set reconstruction in from_records is "
-    "not executed symbolically (std::net::SocketAddr / HashSet<IpAddr> construction is outside the model surface)",
+    "C15.instance runs the chain InstanceInformation -> into_records -> compressed packet -> parse -> from_records on the real MIR; the store "
+    "in between (add_response_to_resources -> ResourceRecordManager -> get_domain_resources(cached)) is decided separately by C15.filter / C13 / C20",
+    "attribute keys are RFC 6763 keys (at least one character, no '='): a key-less string and the empty map have the same wire form",
+    "instance and service labels are printable ASCII without '.' and '\\' (single-label instance names, as the property's quantifier says)",
     "socket transport between the two sides is replaced by bytes out = bytes in",
 ])
 
